@@ -123,9 +123,19 @@ class _Subst(ast.NodeTransformer):
                 return opaque("generator", ast.Constant(value=fn.name))
             bind = dict(fenv)
             params = [a.arg for a in fn.args.args]
+            # defaults first (`clip=False`), then positional and keyword arguments; literal flags then decide the body's branches
+            for p, d in zip(params[len(params) - len(fn.args.defaults):], fn.args.defaults):
+                bind[p] = copy.deepcopy(d)
             for p, a in zip(params, node.args):
                 bind[p] = self.visit(a)
-            return self.summarizer._run_top(fn.body, bind, dict(self.localfns))
+            for k in node.keywords:
+                if k.arg in params:
+                    bind[k.arg] = self.visit(k.value)
+            out = self.summarizer._run_top(fn.body, bind, dict(self.localfns))
+            try:
+                return fold_consts(out)
+            except Exception:
+                return out
         return self.generic_visit(node)
 
 
@@ -324,6 +334,30 @@ class Summarizer:
                         for item in it.elts:
                             unrolled.append(ast.Assign(targets=[copy.deepcopy(st.target)], value=item, lineno=getattr(st, "lineno", 0)))
                             unrolled += copy.deepcopy(st.body)
+                        ast.fix_missing_locations(ast.Module(body=unrolled, type_ignores=[]))
+                        return self._run(unrolled + list(rest), env, localfns, k)
+                # a search loop that LEAVES by `break` (`for name in names: value = f(name); if value is not None: break`), its
+                # last statement being `if TEST: break` and no other break / continue: iteration k+1 runs under `not TEST_k`
+                body_ = list(st.body)
+                last = body_[-1] if body_ else None
+                if (isinstance(last, ast.If) and len(last.body) == 1 and isinstance(last.body[0], ast.Break) and not last.orelse and not self._has_exit([st])
+                        and sum(isinstance(x, (ast.Break, ast.Continue)) for x in ast.walk(st)) == 1):
+                    try:
+                        it = fold_consts(self._subst(st.iter, env, localfns))
+                    except Exception:
+                        it = None
+                    if isinstance(it, (ast.Tuple, ast.List)) and 0 < len(it.elts) <= 8 and not any(isinstance(x, ast.Starred) for x in it.elts):
+                        def nest(items):
+                            head = [ast.Assign(targets=[copy.deepcopy(st.target)], value=items[0], lineno=getattr(st, "lineno", 0))] + copy.deepcopy(body_[:-1])
+                            if len(items) == 1:
+                                # after the last item the loop ends either way (the `else` clause runs only without a break)
+                                if st.orelse:
+                                    head.append(ast.If(test=ast.UnaryOp(op=ast.Not(), operand=copy.deepcopy(last.test)), body=copy.deepcopy(st.orelse), orelse=[]))
+                                return head
+                            head.append(ast.If(test=ast.UnaryOp(op=ast.Not(), operand=copy.deepcopy(last.test)), body=nest(items[1:]), orelse=[]))
+                            return head
+
+                        unrolled = nest(list(it.elts))
                         ast.fix_missing_locations(ast.Module(body=unrolled, type_ignores=[]))
                         return self._run(unrolled + list(rest), env, localfns, k)
             if isinstance(st, (ast.For, ast.While)):
